@@ -37,4 +37,6 @@ MUTANTS = [
     {"id": "c09-n-horner-cube", "expect": "silent", "edits": [(F, "color = 16 + r * 36 + g * 6 + b", "color = 16 + (r * 6 + g) * 6 + b")]},
     {"id": "c09-n-join-list", "expect": "silent", "edits": [(F, '";".join(c for c in color_codes)', '";".join(color_codes)')]},
     {"id": "c09-n-format-elem", "expect": "silent", "edits": [(F, 'return f"{fg_bg_id}8:5:{color}"', 'return fg_bg_id + "8:5:" + str(color)')]},
+    # R09i
+    {"id": "c09-no-color-returns-str-before-encoding", "expect": "fire", "edits": [(F, "        color_codes = []\n        if not no_color:\n", "        if no_color:\n            return \"\", \"\"\n        color_codes = []\n        if not no_color:\n")]},
 ]
